@@ -105,6 +105,57 @@ extern "C" __attribute__((noinline)) void h_mempool() {
   mp.cleanUp();                                                    // engine obligation: no freed memory touched
   verif_check(mp.getMap<ATV>().empty(), 2);                        // stale payloads are forgotten
   verif_cover(1);
+#elif defined(MODE_REJECT)
+  // generatePopData meets a connected ATV whose endorsement is contextually invalid on the current tip (endorsed block on another
+  // fork): the temporary block must leave no trace (payload index, trees), and the ATV is not offered.
+  mineVbk(w, 1);                                                     // VBK 2
+  addAltHeader(w, 2, 1); addAltHeader(w, 3, 1);                     // active 1-2, fork block 3
+  PopData none;
+  t.acceptBlock(altHash(2), none); t.acceptBlock(altHash(3), none);
+  ValidationState st;
+  verif_check(t.setState(altHash(2), st), 1);
+  uint32_t endorsed = verif_choice(1, 3);                            // 1, 2: on the active chain (valid); 3: other fork (invalid here)
+  auto hdr = std::make_shared<VbkBlock>(w.vbkById[2]);
+  ValidationState s0;
+  verif_check(mp.submit<VbkBlock>(w.vbkById[2], true, s0).isAccepted(), 2);
+  auto& rel = mp.getOrPutVbkRelation(hdr);
+  auto atv = std::make_shared<ATV>(makeATV(w, (uint8_t)endorsed, (uint8_t)endorsed, 2, 1));
+  rel.atvs.insert(atv);
+  mp.makePayloadConnected<ATV>(atv);
+  uint64_t before = treesDigest();
+  size_t idxBefore = t.getPayloadsIndex().getAll().size();
+  PopData pd = mp.generatePopData();
+  verif_check(treesDigest() == before, 3);                           // side-effect free
+  verif_check(t.getPayloadsIndex().getAll().size() == idxBefore, 4); // the ALT payload index holds nothing of the temporary block
+  verif_check(t.getPayloadsIndex().find(atv->getId().asVector()).empty(), 5);
+  verif_check((pd.atvs.size() == 1) == (endorsed != 3), 6);          // offered iff statefully valid on the tip
+  // whatever is returned is valid as-is for the next block
+  addAltHeader(w, 4, 2);
+  t.acceptBlock(altHash(4), pd);
+  ValidationState s2;
+  verif_check(t.setState(altHash(4), s2), 7);
+  if (endorsed == 3) verif_cover(1); else verif_cover(2);
+#elif defined(MODE_DUP)
+  // the same VTB connected twice (a resubmission of a connected payload is not de-duplicated), then removeAll: nothing of it may remain
+  mineVbk(w, 1); mineVbk(w, 2); mineBtc(w, 1);
+  ValidationState s0;
+  verif_check(mp.submit<VbkBlock>(w.vbkById[2], true, s0).isAccepted(), 1);
+  verif_check(mp.submit<VbkBlock>(w.vbkById[3], true, s0).isAccepted(), 2);
+  auto hdr = std::make_shared<VbkBlock>(w.vbkById[3]);
+  auto& rel = mp.getOrPutVbkRelation(hdr);
+  auto vtb = std::make_shared<VTB>(makeVTB(w, 2, 3, 2, 2, 1));
+  uint32_t copies = verif_choice(1, 2);
+  for (uint32_t i = 0; i < copies; i++) { rel.vtbs.push_back(vtb); mp.makePayloadConnected<VTB>(vtb); }
+  PopData pop; pop.context = {w.vbkById[2], w.vbkById[3]}; pop.vtbs = {*vtb};
+  mp.removeAll(pop);
+  verif_check(mp.getMap<VTB>().count(vtb->getId()) == 0, 3);
+  // relations and the per-type map describe the same set
+  size_t inRel = 0;
+  for (auto& kv : mp.relations_) for (auto& v : kv.second->vtbs) inRel += v->getId() == vtb->getId();
+  verif_check(inRel == 0, 4);                                        // removed payloads never linger in the relations
+  PopData again = mp.generatePopData();
+  verif_check(again.vtbs.empty(), 5);                                // and never reappear
+  if (copies == 2) verif_cover(1); else verif_cover(2);
 #else
 #error mode
 #endif
